@@ -321,9 +321,30 @@ func Update(t *rapid.T, f *gen.Func, state []reflect.Value, shape string, o gen.
 	case DeleteAndPartial:
 		u.Delete = true
 		u.DeleteSelector = sel
+		if CapsOf(f).Elements && rapid.IntRange(0, 2).Draw(t, label+".deleteElements?") == 0 {
+			u.DeleteElements = elementsFor(t, f, label)
+		}
 		u.Partial = true
-		k := pickKey(t, f, state, label+".item")
-		u.Items = []reflect.Value{gen.Item(t, f, k, o, label+".item")}
+		// the partial part comes with identifiers, with a selector of its own or without either
+		switch rapid.IntRange(0, 3).Draw(t, label+".partialPart") {
+		case 0, 1:
+			k := pickKey(t, f, state, label+".item")
+			u.Items = []reflect.Value{gen.Item(t, f, k, o, label+".item")}
+		case 2:
+			k := pickKey(t, f, state, label+".psel")
+			if ps := selectorFor(f, k); matches(ps, state) <= 1 {
+				u.PartialSelector = ps
+				var keys []uint64
+				if rapid.Bool().Draw(t, label+".itemRepeatsKey") {
+					keys = k
+				}
+				u.Items = []reflect.Value{gen.Item(t, f, keys, o, label+".item")}
+			} else {
+				u.Items = []reflect.Value{gen.Item(t, f, k, o, label+".item")}
+			}
+		case 3:
+			u.Items = []reflect.Value{gen.Item(t, f, nil, o, label+".item")}
+		}
 	default:
 		panic("listgen: unknown shape " + shape)
 	}
